@@ -322,7 +322,8 @@ class C02(Property):
             "parameter texts with escapes/brackets/non-ASCII; evaluators with ragged rows, no reward column, zero rows, raising triples; real "
             "SequentialCB), result file plain or .gz, complete log cut at every record boundary +-2 bytes plus PRNG-chosen offsets (thorough: "
             "every byte offset of small logs; 7% of the cases hold one record of 65 KB-1.5 MB cut at offsets spread over it, around 4 KiB/64 KiB "
-            "multiples from its start and end and just before its newline), resumed under a PRNG-chosen configuration (processes 1-3, maxchunksperchild, maxtasksperchunk, "
+            "multiples from its start and end and just before its newline; 1.5-3% hold one HIGHLY compressible record of 1-4 MB (repeated pattern or "
+            "very many periodic rows; a few KB as gzip member), cut inside the member and resumed from the complete file), resumed under a PRNG-chosen configuration (processes 1-3, maxchunksperchild, maxtasksperchunk, "
             "all/some/no environments chunk()ed in both declaration orders), result-file names of several shapes (containing '.gz' without ending in it, "
             "sub-directories, spaces, non-ASCII); 30% of the un-chunked cases cut a SPARSE log instead (version + experiment line + a PRNG-chosen subset of "
             "the records, optionally shuffled: what a killed multi-process run leaves); 30% of the cases interrupt a successful resumption again, 1-3 times, "
@@ -463,8 +464,30 @@ class C02(Property):
             c["cuts"] = rng.sample(c["cuts"], 8)      # a resume of a multi-megabyte log costs ~1 s (implementation + model)
         return c
 
+    def gen_compressible(self, rng, tier):
+        """family with one long, HIGHLY compressible record (repeated pattern / very many periodic rows; 1-4 MB of text, a few KB as
+        a gzip member: > 16:1, so that 4096 compressed bytes inflate to far more than 64 KiB), mostly .gz, cut inside the member and
+        NOT cut at all (a second run on the complete file)"""
+        ne, nl = rng.choice([1, 2]), rng.choice([1, 2])
+        c = {"envs": [{"n": 1, "p": rng.below(3)} for _ in range(ne)], "lrns": [{"p": rng.below(3)} for _ in range(nl)],
+             "vals": [{"mode": "rows", "style": rng.below(2), "nrows": 2}], "desc": None, "cfg0": CFG1, "cfg": CFG1}
+        c["name"] = rng.choice(["r.log.gz", "r.log.gz", "r.gz.bak", "a.gz.d/r.log", "r.log"])
+        c["gz"] = ".gz" in c["name"]
+        size = rng.randint(1000000, 2000000) if (tier == "quick" or rng.chance(0.6)) else rng.randint(2000000, 4000000)
+        c["big"] = {"pairs": [[rng.below(ne), rng.below(nl)]], "size": size, "rows": rng.choice([1, 2]), "kind": rng.choice(["rep", "rep", "rows"])}
+        if c["big"]["kind"] == "rows":
+            c["big"]["size"] = min(size, 1200000)       # 60000 periodic rows; building and packing the rows dominates the cost
+        nrec = 2 + ne + nl + 1 + ne * nl
+        c["cuts"] = [["b", 99, 0], ["p", 1000], ["lp", rng.below(1001)], ["lp", rng.below(1001)], ["ls", 1], ["le", -1], ["le", 0],
+                     ["b", rng.below(nrec + 1), 0]]
+        if rng.chance(0.4):
+            c["chain"] = {"p": rng.below(1001), "d": 0, "links": 1, "cfg": CFG1}
+        return c
+
     def generate(self, rng, tier):
-        rng = rng.fork("c02")       # the per-case streams of core.prng overlap (shifted by one output) for neighbouring case numbers
+        rng = rng.fork("c02")
+        if rng.chance(0.015 if tier == "quick" else 0.03):
+            return self.gen_compressible(rng, tier)       # the per-case streams of core.prng overlap (shifted by one output) for neighbouring case numbers
         if rng.chance(0.055 if tier == "quick" else 0.07):
             return self.gen_long(rng, tier)
         c = self.gen_exp(rng)
@@ -524,6 +547,10 @@ class C02(Property):
             cs.append(dict(base, envs=[{"n": 1}, {"n": 1}], gz=gz, big={"pairs": [[0, 0]], "size": 140000, "rows": 2}, cuts=lc))
             cs.append(dict(base, gz=gz, big={"pairs": [[0, 0]], "size": 70000, "rows": 1}, cuts=lc))
         cs.append(dict(base, gz=False, big={"pairs": [[0, 0]], "size": 1150000, "rows": 3}, cuts=[["ls", 65537], ["lp", 700], ["le", -1], ["le", -65537]]))
+        # a long record that compresses far better than 16:1 in a .gz log: second run on the COMPLETE file, and cuts inside the member
+        cs.append(dict(base, envs=[{"n": 1}, {"n": 1}], name="r.log.gz", gz=True, big={"pairs": [[0, 0]], "size": 1100000, "rows": 1, "kind": "rep"},
+                       cuts=[["b", 99, 0], ["lp", 500], ["le", -1], ["le", 0]]))
+        cs.append(dict(base, name="r.gz.bak", gz=True, big={"pairs": [[0, 0]], "size": 700000, "rows": 1, "kind": "rows"}, cuts=[["b", 99, 0], ["le", 0], ["ls", 1]]))
         # result-file names that CONTAIN '.gz' without ending in it (coba's sink/source treat them as gzip), directories, spaces, non-ASCII
         for nm in NAMES:
             cs.append(dict(base, name=nm, gz=".gz" in nm, cuts=[["b", 3, 0], ["b", 3, 1], ["b", 4, -1], ["b", 5, 0], ["b", 0, 0], ["b", 1, 0]],
@@ -573,6 +600,8 @@ class C02(Property):
             tags.append("chunk:all")
         if case.get("big"):
             tags.append("long-record:>1MiB" if case["big"]["size"] > (1 << 20) else "long-record:>64KiB")
+            if case["big"].get("kind", "hex") != "hex":
+                tags.append("long-record:compressible:" + fmt)
         tags.append("flags:" + "".join(str(int(x)) for x in flags))
 
         # the uninterrupted run
@@ -903,7 +932,7 @@ class C02(Property):
             b = case["big"]
             if b.get("rows", 1) > 1:
                 yield dict(case, big=dict(b, rows=1))
-            for sz in (66000, 140000):
+            for sz in (66000, 140000, 600000):
                 if b["size"] > sz:
                     yield dict(case, big=dict(b, size=sz))
         for key in ("chunk", "empty", "boom", "triples", "big"):
